@@ -3,11 +3,11 @@ package main
 // Calls: builtins, inlining, contract summaries, interface dispatch, models of library functions.
 
 import (
-	"sort"
-	"os"
 	"fmt"
 	"go/token"
 	"go/types"
+	"os"
+	"sort"
 	"strings"
 
 	"golang.org/x/tools/go/ssa"
@@ -85,6 +85,14 @@ func (e *Exec) builtin(st *State, fr *Frame, b *ssa.Builtin, cc *ssa.CallCommon,
 		}
 	case "append":
 		s := args[0].(*SliceV)
+		// x.f = append(x.f, ...): growing in place is covered by the permission to assign x.f (see appendSlice)
+		e.appendOwner = nil
+		if ld, ok := cc.Args[0].(*ssa.UnOp); ok && ld.Op == token.MUL {
+			if pv, ok := e.val(fr, ld.X).(*PtrV); ok && (pv.Kind == PObj || pv.Kind == PElem) {
+				l := e.locOf(pv)
+				e.appendOwner = &l
+			}
+		}
 		switch t := args[1].(type) {
 		case *SliceV:
 			pre := st.heaps
@@ -112,6 +120,17 @@ func (e *Exec) builtin(st *State, fr *Frame, b *ssa.Builtin, cc *ssa.CallCommon,
 			e.frameCheck(st, fr, Loc{Key: elemKey(d.Elem), Idx: []*Term{d.Arr}}, pos)
 			c := comp{"", BV(8)}
 			st.setArrayOf(d.Elem, c, d.Arr, ArrayCopy(st.arrayOf(d.Elem, c, d.Arr), d.Off, s.Data, BVConst(0, 64), n))
+		}
+		// copy(obj.arr[:], src) where arr is an array stored by value inside an object: the slice is a view of a
+		// copy of the field (sliceEmbeddedArray), so the result is written back into the field
+		if sx, ok := cc.Args[0].(*ssa.Slice); ok {
+			if pv, ok := e.val(fr, sx.X).(*PtrV); ok && pv.Kind == PObj {
+				l := e.locOf(pv)
+				if at, ok := l.T.Underlying().(*types.Array); ok {
+					e.frameCheck(st, fr, l, pos)
+					st.StoreLoc(l, &ArrV{Data: st.arrayOf(d.Elem, comp{"", scalarSort(at.Elem())}, d.Arr), N: at.Len(), Elem: at.Elem()})
+				}
+			}
 		}
 		return one(st, n)
 	case "delete":
@@ -147,9 +166,12 @@ func (e *Exec) appendSlice(st *State, fr *Frame, s *SliceV, telem types.Type, sr
 			s1.Assume(fits)
 		}
 		if !s1.dead {
-			// growing in place writes only the spare capacity beyond len(s): not frame-checked (unobservable
-			// except through append on an alias; listed as an assumption)
-			e.note("append in place writes spare capacity beyond len(): exempt from frame (assigns) checks")
+			// growing in place writes the spare capacity beyond len(s) of the backing array: a write like any other
+			// (two appends on aliases of a pre-existing array overwrite each other), so it is frame-checked unless
+			// the array was allocated during the call
+			if !(tlen.Op == "bvconst" && tlen.Val == 0) {
+				e.frameCheckAppend(s1, fr, Loc{Key: elemKey(s.Elem), Idx: []*Term{s.Arr}}, e.appendOwner, pos)
+			}
 			for _, c := range components(s.Elem) {
 				old := s1.arrayOf(s.Elem, c, s.Arr)
 				s1.setArrayOf(s.Elem, c, s.Arr, ArrayCopy(old, BVAdd(s.Off, s.Len), src(c), toff, tlen))
@@ -212,7 +234,18 @@ func isModuleFn(fn *ssa.Function) bool {
 func (e *Exec) callFunction(st *State, fr *Frame, fn *ssa.Function, args []Value, bind []Value, pos token.Pos) []Outcome {
 	name := fn.String()
 	// call-site assertions of the function under verification
+	if fr.top && e.topSpec != nil && e.specMode == 0 && e.topSpec.CountCalls[fn.Name()] {
+		// ghost call counter (contracts speak about it through ghost_calls("<callee>"))
+		k := "calls." + fn.Name()
+		e.ghSet(st, k, BV(64), IntConst(0), BVAdd(e.ghGet(st, k, BV(64), IntConst(0)), BVConst(1, 64)))
+	}
 	if fr.top && e.topSpec != nil && e.specMode == 0 && e.discovery == 0 {
+		if len(e.topSpec.AtCall[fn.Name()]) > 0 {
+			if e.atCallSeen == nil {
+				e.atCallSeen = map[string]bool{}
+			}
+			e.atCallSeen[fn.Name()] = true
+		}
 		for _, cl := range e.topSpec.AtCall[fn.Name()] {
 			t := e.evalSpec(st, fr, cl, func(n string, t types.Type) (Value, bool) {
 				if strings.HasPrefix(n, "arg_") { // the callee's argument of that name
@@ -416,6 +449,21 @@ func (e *Exec) invoke(st *State, fr *Frame, cc *ssa.CallCommon, recv *IfaceV, ar
 		conds = append(conds, c)
 	}
 	e.note("closed-world dispatch over " + cc.Value.Type().String())
+	// every implementation just returns constants (Type(), marker bytes...): one outcome holding a conditional value
+	// instead of one path per implementation
+	if vals := e.constMethodResults(impls, cc.Method); vals != nil && cc.Signature().Results().Len() == 1 {
+		rt := cc.Signature().Results().At(0).Type()
+		res := vals[len(vals)-1]
+		for i := len(vals) - 2; i >= 0; i-- {
+			res = iteValue(conds[i], rt, vals[i], res)
+		}
+		if !ifaceClosed(cc.Value.Type().Underlying().(*types.Interface)) {
+			e.oblige(st, fr, "dispatch.closed", pos, Or(conds...))
+		} else {
+			st.Assume(Or(conds...))
+		}
+		return one(st, res)
+	}
 	for i, t := range impls {
 		s2 := st.Clone()
 		s2.Assume(conds[i])
@@ -439,6 +487,37 @@ func (e *Exec) invoke(st *State, fr *Frame, cc *ssa.CallCommon, recv *IfaceV, ar
 		e.oblige(st, fr, "dispatch.closed", pos, Or(conds...))
 	}
 	return all
+}
+
+func ifaceClosed(it *types.Interface) bool {
+	for i := 0; i < it.NumMethods(); i++ {
+		if !it.Method(i).Exported() {
+			return true
+		}
+	}
+	return false
+}
+
+// constMethodResults: when the method of every implementation is a single `return <constant>` that does not look at its
+// receiver, the constants (one per implementation); nil otherwise.
+func (e *Exec) constMethodResults(impls []types.Type, m *types.Func) []Value {
+	var out []Value
+	for _, t := range impls {
+		fn := e.methodOf(t, m)
+		if fn == nil || len(fn.Blocks) != 1 || len(fn.Blocks[0].Instrs) != 1 || e.specs.ForFn(fn) != nil {
+			return nil
+		}
+		r, ok := fn.Blocks[0].Instrs[0].(*ssa.Return)
+		if !ok || len(r.Results) != 1 {
+			return nil
+		}
+		k, ok := r.Results[0].(*ssa.Const)
+		if !ok {
+			return nil
+		}
+		out = append(out, e.constValue(k))
+	}
+	return out
 }
 
 func (e *Exec) implementations(it *types.Interface) []types.Type {
@@ -501,6 +580,17 @@ func (e *Exec) primitive(st *State, fr *Frame, fn *ssa.Function, args []Value, p
 	}
 	if strings.HasPrefix(n, "prim_mapall") {
 		return one(st, e.primMapAll(st, fr, args[0].(*MapV), args[1].(*FuncV))), true
+	}
+	if strings.HasPrefix(n, "prim_ownedslice") {
+		// the slice's backing array is the one of the second slice (typically the entry value of the same field), or
+		// was allocated during the call, or there is none
+		a, b := args[0].(*SliceV), args[1].(*SliceV)
+		return one(st, Or(Eq(a.Cap, BVConst(0, 64)), IntLe(fr.entryTopOr(e), a.Arr), Eq(a.Arr, b.Arr))), true
+	}
+	if strings.HasPrefix(n, "prim_freshslice") {
+		// the slice's backing array was allocated during the call (or there is none)
+		a := args[0].(*SliceV)
+		return one(st, Or(Eq(a.Cap, BVConst(0, 64)), IntLe(fr.entryTopOr(e), a.Arr))), true
 	}
 	if strings.HasPrefix(n, "prim_freshobj") {
 		// the object was allocated during the call
